@@ -241,7 +241,7 @@ Definition show_trace (args : list str) : str :=
                                             | c :: e :: _ => mkEv c (one_byte06 49 e)
                                             | _ => mkEv [] false
                                             end) es in
-              let sc := mkSc drv_uid decls inits evs ths (one_byte06 49 rc) in
+              let sc := mkSc drv_uid decls inits evs ths (memb 49 rc) in
               match actions_of clears (firstn (nat_of ncert) r6), actions_of clears (skipn (nat_of ncert) r6) with
               | Some cert, Some obs =>
                 if accepts sc cert obs then bs "accept"
